@@ -337,8 +337,8 @@ func init() {
 	externals["time.Now"] = func(fr *frame, a []value) value {
 		fs := fr.i.vfs()
 		fs.clock++
-		// wall=0 (no monotonic reading), ext = seconds since year 1, loc=nil (UTC)
-		return structure{uint64(0), int64(63_800_000_000) + fs.clock, (*value)(nil)}
+		// one second per call, in the representation of the time model (timemodel.go)
+		return tmMake(timeBias + (int64(1_664_403_200)+fs.clock)*int64(1e9))
 	}
 }
 
